@@ -138,8 +138,10 @@ def run(facts, R):
         R.check(name == "wait_timeout", "same-monitor", fn, "timed-wait",
                 "untimed or predicate-closure wait `%s` is not covered by the deadline rule" % name, t.get("span"),
                 "wait_timeout")
-        R.check(b.path in WAITERS, "same-monitor", fn, "known-waiter",
-                "new condvar waiter %s: not covered by the notify discipline tables" % fn, t.get("span"))
+        if b.path not in WAITERS:
+            # a waiter added later (a sibling such as `reserve_credit`): every rule below is applied to it as to the listed ones
+            R.note("derived waiter: %s" % fn)
+        R.ok("same-monitor", fn, "known-waiter", t.get("span"), "listed" if b.path in WAITERS else "derived from its condvar wait")
         # (1) in a cycle
         R.check(in_cycle(b, i), "wait-in-loop", fn, "wait-in-cycle",
                 "condvar wait is not inside a loop: a spurious or early wake-up is taken as the event", t.get("span"),
@@ -189,6 +191,16 @@ def run(facts, R):
                     "head (read of `%s`)" % first[2], t.get("span"),
                     "every path wait->return re-enters the test chain at the read of `%s`; chain reads: %s"
                     % (first[2], [r[2] for r in dom_reads]), path=w)
+            # ... and the monitor is not left between the test and the wait: whenever the mutex is (re)acquired, the predicate chain is
+            # run from its head before the thread parks.  A helper that drops the guard to call out (a hook, a log sink) and locks
+            # again just before `wait_timeout` opens a window in which the event and its notify happen with nobody waiting.
+            locks_ = [term_pt(b, li) for li, lt in b.calls() if callee_matches(lt["callee"], "std::sync::Mutex::<T>::lock") or
+                      (lt["callee"]["name"] in ("lock", "try_lock") and "Mutex" in lt["callee"]["path"])]
+            w2 = must_cross(b, locks_, [term_pt(b, i)], heads_) if locks_ else None
+            R.check(bool(locks_) and w2 is None, "wait-in-loop", fn, "test-and-wait under one critical section",
+                    "the mutex can be acquired and the thread parked on the condvar without the predicate being tested in between (the guard was "
+                    "released and re-taken after the test): an event that lands in that window notifies nobody and the waiter sleeps to its deadline",
+                    t.get("span"), "every lock -> wait path re-enters the test chain at the read of `%s`" % first[2], path=w2)
         # (2) same monitor: cv argument is self.cv, guard comes from self.inner.lock() or a previous wait
         cv = sym.op(t["args"][0])
         R.check(cv[0] == "field" and cv[2] == "cv" and cv[1][0] == "arg" and cv[1][1] == 1, "same-monitor", fn, "cv-is-self.cv",
@@ -277,12 +289,17 @@ def run(facts, R):
         for w in field_writes(facts, INNER, f):
             b = w["body"]
             fn = b.path
-            if fn in WAITERS:
+            if fn in WAITERS or any(wb_ is b for wb_, _, _ in all_waits):
                 continue  # a waiter consuming state cannot be its own waker
             if (fn, f) in EXCEPTIONS:
                 R.exception("notify-after-enabling-write", "%s:%s" % (fn, f), EXCEPTIONS[(fn, f)])
                 R.ok("notify-after-enabling-write", fn, "exception:" + f, w["span"], EXCEPTIONS[(fn, f)], trivial=True)
                 continue
+            if f == "sent_offset" and w["kind"] == "store":
+                from rules.C11 import sent_store_is_monotone
+                if sent_store_is_monotone(facts, b, w):
+                    R.ok("notify-after-enabling-write", fn, "exception:" + f, w["span"], "monotone-increasing store: it can only falsify the credit predicate (in_flight grows)", trivial=True)
+                    continue
             n_sites += 1
             notifies = [(i, t) for i, t in b.calls() if callee_matches(t["callee"], "std::sync::Condvar::notify_all", "std::sync::Condvar::notify_one")]
             good_n = []
@@ -320,14 +337,19 @@ def run(facts, R):
     R.floor("notify-after-enabling-write", n_sites, 7, "predicate-field writes outside the waiters")
 
     # ---- (4) timeout at deadline -------------------------------------------------------------------
-    for path, adt, variant in ((WAITERS[0], "stream::CreditError", "Timeout"), (WAITERS[1], "stream::ReconnectOutcome", "Timeout")):
+    for wp_ in WAITERS:
+        facts.body(wp_)
+    TIMEOUTS = {"stream::CreditError": "Timeout", "stream::ReconnectOutcome": "Timeout"}
+    for path in list(WAITERS) + sorted({wb_.path for wb_, _, _ in all_waits} - set(WAITERS)):
         b = facts.body(path)
         sym = Sym(b)
         touts = []
+        adt, variant = None, "Timeout"
         for i, j, s in b.assigns():
             rv = s["rv"]
-            if rv.get("agg") == "adt" and rv["adt"] == adt and rv["variant"] == variant:
+            if rv.get("agg") == "adt" and TIMEOUTS.get(rv["adt"]) == rv["variant"]:
                 touts.append((i, j, s))
+                adt = rv["adt"]
         if getattr(b, "changed", False):
             # the value may be built ahead of time (`.unwrap_or(Err(Timeout))`): what counts is where it becomes the result
             at_return = []
